@@ -83,6 +83,14 @@ class _Loop(object):
         self.breaks = []
 
 
+class _Inline(object):
+    """Frame of an inlined helper body: an inline-exit (a ``return`` of the
+    helper) continues after the block."""
+
+    def __init__(self):
+        self.exits = []
+
+
 class _Try(object):
     def __init__(self, handlers, final, catch_all):
         self.handlers = handlers      # list of handler entry nodes
@@ -164,7 +172,14 @@ class CFG(object):
         idx = len(frames) - 1
         while idx >= 0:
             frame = frames[idx]
-            if isinstance(frame, _Loop):
+            if isinstance(frame, _Inline):
+                if kind == 'inline_exit':
+                    frame.exits.extend(stubs)
+                    return
+                if kind in ('break', 'continue'):
+                    raise AnalysisError('%s crosses an inlined helper in %s'
+                                        % (kind, self.name))
+            elif isinstance(frame, _Loop):
                 if kind == 'break':
                     frame.breaks.extend(stubs)
                     return
@@ -185,6 +200,8 @@ class CFG(object):
             self._connect(stubs, self.exit)
         elif kind == 'raise':
             self._connect(stubs, self.raise_exit)
+        elif kind == 'inline_exit':
+            self._connect(stubs, self.exit)
         else:
             raise AnalysisError('%s outside loop in %s' % (kind, self.name))
 
@@ -237,6 +254,16 @@ class CFG(object):
         if not stubs:
             # unreachable code: still build it so that nodes exist
             pass
+        if isinstance(stmt, ast.Pass) and getattr(stmt, '_inline_exit',
+                                                  False):
+            node = self._new('stmt', stmt, note='inline-exit')
+            self._connect(stubs, node)
+            self._jump([(node, 'seq')], 'inline_exit', frames)
+            return []
+        if isinstance(stmt, ast.If) and getattr(stmt, '_inline', None):
+            frame = _Inline()
+            out = self._block(stmt.body, stubs, frames + [frame])
+            return out + frame.exits
         if isinstance(stmt, (ast.Expr, ast.Assign, ast.AugAssign,
                              ast.AnnAssign, ast.Delete, ast.Pass,
                              ast.Import, ast.ImportFrom, ast.Global,
